@@ -139,6 +139,8 @@ pub struct RenderKnobs {
     pub json_is_one_of: bool,
     /// JSON: `directives` member present
     pub json_directives: bool,
+    /// mark every second enum value `@deprecated` (both formats; the generator ignores it today)
+    pub deprecated_enum_values: bool,
 }
 
 impl Default for RenderKnobs {
@@ -150,6 +152,7 @@ impl Default for RenderKnobs {
             json_wrapped: false,
             json_is_one_of: true,
             json_directives: true,
+            deprecated_enum_values: true,
         }
     }
 }
@@ -241,8 +244,12 @@ impl ASchema {
                 AType::Scalar { name } => out.push_str(&format!("scalar {}\n\n", name)),
                 AType::Enum { name, values } => {
                     out.push_str(&format!("enum {} {{\n", name));
-                    for v in values {
-                        out.push_str(&format!("  {}\n", v));
+                    for (i, v) in values.iter().enumerate() {
+                        if k.deprecated_enum_values && i % 2 == 1 {
+                            out.push_str(&format!("  {} @deprecated(reason: \"old value\")\n", v));
+                        } else {
+                            out.push_str(&format!("  {}\n", v));
+                        }
                     }
                     out.push_str("}\n\n");
                 }
@@ -329,7 +336,12 @@ impl ASchema {
                         Value::Array(
                             values
                                 .iter()
-                                .map(|v| json!({"name": v, "description": null, "isDeprecated": false, "deprecationReason": null}))
+                                .enumerate()
+                                .map(|(i, v)| {
+                                    let dep = k.deprecated_enum_values && i % 2 == 1;
+                                    json!({"name": v, "description": null, "isDeprecated": dep,
+                                           "deprecationReason": if dep { Value::String("old value".into()) } else { Value::Null }})
+                                })
                                 .collect(),
                         ),
                     );
